@@ -203,8 +203,10 @@ static uint64_t one_sequence(vf_rng_t *r, int len, int *changed) {
             (*changed)++;
         } else { KIND(16, "ring_chop"); if (!nR) continue; int pos = (int)vf_randn(r, (uint32_t)nR); SAY("ring_chop@%d ", pos);
             parsec_list_item_t *rest = parsec_list_item_ring_chop(&MR[pos]->super);
-            if (pos == 0) ring = rest; if (nR == 1) { if (rest) { seq_fail("result", "chopping the only element did not return NULL"); break; } ring = NULL; }
-            else if (rest != &MR[(pos + 1) % nR]->super) { seq_fail("result", "chop did not return the successor"); break; }
+            if (nR == 1) { if (rest) { seq_fail("result", "chopping the only element did not return NULL"); break; } ring = NULL; }
+            else { int member = 0; for (int j = 0; j < nR; j++) if (j != pos && rest == &MR[j]->super) member = 1;      /* "the rest of the ring": any remaining element */
+                   if (!member) { seq_fail("result", "chop did not return an element of the remaining ring"); break; }
+                   if (pos == 0) ring = &MR[1]->super; }
             sdel(MR[pos]); mremove(MR, &nR, pos);
             elt_t *got[SEQ_POOL]; int k = ring_to_array(ring, got, SEQ_POOL);
             if (k != nR) { seq_fail("content", "ring has %d elements after chop, model %d", k, nR); break; }
